@@ -10,6 +10,13 @@ from .common import *
 from symlomond.engine import SymReal, _r
 
 OUTCOMES = ['resolve-fail', 'refused', 'rejected', 'drop-before-ready', 'ready-drop', 'ready-close', 'protocol-error']
+REJECTIONS = [
+    b'HTTP/1.1 401 Unauthorized\r\n\r\n',
+    b'HTTP/1.1 503 Service Unavailable\r\nRetry-After: 120\r\nContent-Length: 0\r\nConnection: close\r\n\r\n',
+    b'HTTP/1.1 429 Too Many Requests\r\nRetry-After: 86400\r\nX-RateLimit-Reset: 1700090000\r\nX-RateLimit-Remaining: 0\r\n\r\n',
+    b'HTTP/1.1 301 Moved Permanently\r\nLocation: ws://example.org/\r\nRetry-After: Fri, 31 Dec 1999 23:59:59 GMT\r\nKeep-Alive: timeout=600, max=1000\r\n\r\n',
+    b'HTTP/1.1 200 OK\r\nRefresh: 900\r\nCache-Control: max-age=31536000\r\nExpires: 0\r\nAge: 7200\r\n\r\n',
+]
 REACHES_READY = {'ready-drop', 'ready-close', 'protocol-error'}
 
 
@@ -61,7 +68,9 @@ def run_persist(c, P):
             elif o == 'refused':
                 w.fault_hook = _Always('connect')
             elif o == 'rejected':
-                w.scripts[idx] = Script(lambda w_, s_: list(b'HTTP/1.1 401 Unauthorized\r\n\r\n'), end='eof')
+                # a rejection as servers send them: the status and advisory headers are drawn by a solver variable
+                rej = REJECTIONS[c.choose(len(REJECTIONS), 'rejection')]
+                w.scripts[idx] = Script(lambda w_, s_, rej=rej: list(rej), end='eof')
             elif o == 'drop-before-ready':
                 w.scripts[idx] = Script(lambda w_, s_: list(b'HTTP/1.1 101 Swi'), end='eof')
             elif o == 'ready-drop':
